@@ -302,9 +302,9 @@ def normalise(tree: ast.Module) -> ast.Module:
 #       place the rules look at.  The helper itself remains in the model.
 
 PURE_FUNCS = {'set', 'frozenset', 'len', 'tuple', 'list', 'sorted', 'str', 'int', 'isinstance', 'id', 'type', 'min', 'max', 'abs',
-              'bool', 'dict', 'repr', 'ord', 'chr', 'float', 'bytes', 'hash', 'callable', 'issubclass'}
+              'bool', 'dict', 'repr', 'ord', 'chr', 'float', 'bytes', 'hash', 'callable', 'issubclass', 'hasattr'}
 PURE_METHODS = {'encode', 'decode', 'lower', 'upper', 'strip', 'lstrip', 'rstrip', 'startswith', 'endswith', 'format', 'join',
-                'keys', 'values', 'items', 'get', 'isupper', 'islower', 'isdigit'}
+                'keys', 'values', 'items', 'get', 'isupper', 'islower', 'isdigit', 'end', 'start', 'group', 'span'}
 
 
 def pure_call_ok(e: ast.AST) -> bool:
@@ -375,7 +375,7 @@ def _kills(st: ast.AST, roots: Set[str], reads_heap: bool, var: str, paths: Opti
             # the object itself handed to a call: the callee may change it (a list passed down and appended to)
             for a in list(x.args) + [k.value for k in x.keywords]:
                 if isinstance(a, ast.Name) and a.id in roots and a.id != self_name:
-                    if isinstance(f, ast.Name) and f.id in PURE_FUNCS:
+                    if isinstance(f, ast.Name) and (f.id in PURE_FUNCS or f.id in ('getattr', 'hasattr', 'partial')):
                         continue
                     return True
     return False
@@ -652,6 +652,55 @@ def _n8(tree: ast.AST):
                             del b[i + 1]
                             continue
                 i += 1
+    # a loop that only appends to an existing list:  for T in IT: [if C:] X.append(E)   ->   X.extend([E for T in IT if C])
+    for node in ast.walk(tree):
+        for field, b in _blocks(node):
+            for i, st in enumerate(b):
+                if not (isinstance(st, ast.For) and not st.orelse):
+                    continue
+                # find the single append at the bottom of the loop nest
+                recv = None
+                probe = st.body
+                while True:
+                    probe = [x for x in probe if not isinstance(x, ast.Pass)]
+                    if len(probe) == 1 and isinstance(probe[0], (ast.If, ast.For)) and not probe[0].orelse:
+                        probe = probe[0].body
+                        continue
+                    break
+                if len(probe) == 1 and isinstance(probe[0], ast.Expr) and isinstance(probe[0].value, ast.Call) \
+                        and isinstance(probe[0].value.func, ast.Attribute) and probe[0].value.func.attr == 'append' \
+                        and len(probe[0].value.args) == 1 and pure(probe[0].value.func.value):
+                    recv = probe[0].value.func.value
+                if recv is None:
+                    continue
+                tnames = {x.id for x in ast.walk(st.target) if isinstance(x, ast.Name)}
+                if any(isinstance(x, ast.Name) and x.id in tnames for x in ast.walk(recv)):
+                    continue
+                marker = '__acc__'
+                fake_body = _copy.deepcopy(st.body)
+                # reuse the accumulator analysis by renaming the receiver to a marker name
+                class RN(ast.NodeTransformer):
+                    def visit_Attribute(self_, n):
+                        if n.attr == 'append' and ast.unparse(n.value) == ast.unparse(recv):
+                            return ast.Attribute(value=ast.Name(id=marker, ctx=ast.Load()), attr='append', ctx=n.ctx)
+                        self_.generic_visit(n)
+                        return n
+                fake_body = [RN().visit(x) for x in fake_body]
+                r = _acc_body(fake_body, marker, 'list')
+                if r is None:
+                    continue
+                clauses, elt = [('for', st.target, st.iter)] + r[0], r[1]
+                if any(isinstance(x, ast.Name) and x.id == marker for c in clauses for part in c[1:] for x in ast.walk(part)):
+                    continue
+                gens: List[ast.comprehension] = []
+                for c in clauses:
+                    if c[0] == 'for':
+                        gens.append(ast.comprehension(target=c[1], iter=c[2], ifs=[], is_async=0))
+                    else:
+                        gens[-1].ifs.append(_simplify_not(c[1]))
+                comp = ast.copy_location(ast.ListComp(elt=elt, generators=gens), st)
+                call = ast.Call(func=ast.Attribute(value=recv, attr='extend', ctx=ast.Load()), args=[comp], keywords=[])
+                b[i] = ast.copy_location(ast.Expr(value=ast.copy_location(call, st)), st)
     # filters joined by `and` -> separate if clauses
     for node in ast.walk(tree):
         if isinstance(node, ast.comprehension):
@@ -936,7 +985,14 @@ class _Subst(ast.NodeTransformer):
     def visit_Name(self, n):
         if isinstance(n.ctx, ast.Load) and n.id in self.mapping:
             return _copy.deepcopy(self.mapping[n.id])
+        if isinstance(n.ctx, (ast.Store, ast.Del)) and n.id in self.mapping and isinstance(self.mapping[n.id], ast.Name):
+            # a parameter the helper rebinds, bound to a plain variable of the caller: the rebinding is the caller's variable's
+            return ast.copy_location(ast.Name(id=self.mapping[n.id].id, ctx=n.ctx), n)
         return n
+
+
+def _rebinds_ok(stored: Set[str], mp: Dict[str, ast.AST]) -> bool:
+    return all(isinstance(mp[p_], ast.Name) for p_ in stored & set(mp))
 
 
 def _as_expr(stmts: List[ast.stmt]) -> Optional[ast.AST]:
@@ -1116,7 +1172,7 @@ def _p2(trees: Dict[str, ast.Module]) -> int:
                                     mpg = bind(rg[0], st.value.value, rg[1])
                                     if mpg is not None:
                                         storedg = {x.id for s_ in shg[1] for x in ast.walk(s_) if isinstance(x, ast.Name) and isinstance(x.ctx, (ast.Store, ast.Del))}
-                                        if not (storedg & set(mpg)):
+                                        if _rebinds_ok(storedg, mpg):
                                             newg = [_Subst(mpg).visit(_copy.deepcopy(s_)) for s_ in shg[1]]
                                             b[i:i + 1] = newg
                                             rg[0]._looked_through = True       # type: ignore[attr-defined]
@@ -1146,7 +1202,7 @@ def _p2(trees: Dict[str, ast.Module]) -> int:
                                     if mp2 is None:
                                         continue
                                     stored2 = {x.id for s_ in shape2[1] for x in ast.walk(s_) if isinstance(x, ast.Name) and isinstance(x.ctx, (ast.Store, ast.Del))}
-                                    if stored2 & set(mp2):
+                                    if not _rebinds_ok(stored2, mp2):
                                         continue
                                     pre = [_Subst(mp2).visit(_copy.deepcopy(s_)) for s_ in shape2[1]]
                                     rv2 = _Subst(mp2).visit(_copy.deepcopy(shape2[2]))
@@ -1173,7 +1229,7 @@ def _p2(trees: Dict[str, ast.Module]) -> int:
                                 if mp is not None:
                                     # parameters that the helper rebinds cannot be substituted
                                     stored = {x.id for s_ in shape[1] for x in ast.walk(s_) if isinstance(x, ast.Name) and isinstance(x.ctx, (ast.Store, ast.Del))}
-                                    if not (stored & set(mp)):
+                                    if _rebinds_ok(stored, mp):
                                         new = [_Subst(mp).visit(_copy.deepcopy(s_)) for s_ in shape[1]]
                                         if shape[2] is not None:
                                             rv = _Subst(mp).visit(_copy.deepcopy(shape[2]))
